@@ -161,6 +161,16 @@ func (c *Config) method(short, typ, name string) *ssa.Function {
 	if obj == nil {
 		return nil
 	}
+	// declared methods first (the method set of *T contains synthetic wrappers for value-receiver methods)
+	if n, ok := obj.Type().(*types.Named); ok {
+		for i := 0; i < n.NumMethods(); i++ {
+			if n.Method(i).Name() == name {
+				if f := c.Prog.FuncValue(n.Method(i)); f != nil {
+					return f
+				}
+			}
+		}
+	}
 	for _, t := range []types.Type{types.NewPointer(obj.Type()), obj.Type()} {
 		sel := c.Prog.MethodSets.MethodSet(t).Lookup(p.Types, name)
 		if sel == nil {
